@@ -140,21 +140,9 @@ def _is_pass(body):
     return len(body) == 1 and isinstance(body[0], ast.Pass)
 
 
-def translate_metrics(repo):
-    rel_path = "evo/core/metrics.py"
-    tree = ast.parse(open(os.path.join(repo, rel_path)).read())
-    classes = {n.name: n for n in tree.body if isinstance(n, ast.ClassDef)}
-    for c in ("APE", "RPE", "PoseRelation"):
-        if c not in classes:
-            raise Unsupported("class %s not found" % c)
-    members = [t.id for n in classes["PoseRelation"].body if isinstance(n, ast.Assign) for t in n.targets if isinstance(t, ast.Name)]
-    if sorted(members) != sorted(RELS):
-        raise Unsupported("PoseRelation members are %r" % members)
+def _translate_ape(classes):
     tr = MetricsTranslator()
-    defs = []
-    # ---- static kernels
-    defs.append(tr.function(_method(classes["APE"], "ape_base"), "ape_base_gen", ["P", "P"], "P"))
-    defs.append(tr.function(_method(classes["RPE"], "rpe_base"), "rpe_base_gen", ["P", "P", "P", "P"], "P"))
+    defs = [tr.function(_method(classes["APE"], "ape_base"), "ape_base_gen", ["P", "P"], "P")]
     tr.sigs["ape_base"] = (["P", "P"], "P")
     # ---- APE.process_data: E construction + reduction, per relation
     pd = _method(classes["APE"], "process_data")
@@ -206,6 +194,14 @@ def translate_metrics(repo):
         branches.append("  | %s => let %s := %s in Some %s" % (rel, tgt.id, E.coq, v.coq))
     defs.append("Definition ape_pair_gen (rel : PoseRelation) (ref est : Pose T) : option T :=\n  match rel with\n%s\n  end."
                 % "\n".join(branches))
+    if tr.literals:
+        raise Unsupported("float literals %r in the APE kernels" % tr.literals)
+    return defs
+
+
+def _translate_rpe(classes):
+    tr = MetricsTranslator()
+    defs = [tr.function(_method(classes["RPE"], "rpe_base"), "rpe_base_gen", ["P", "P", "P", "P"], "P")]
     # ---- RPE.process_data: reduction chain of the SE(3)-based relations (the last chain)
     pd = _method(classes["RPE"], "process_data")
     chains = _chains(pd)
@@ -243,8 +239,40 @@ def translate_metrics(repo):
     defs.append("Definition rpe_reduce_gen (rel : PoseRelation) (E : Pose T) : option T :=\n  match rel with\n%s\n  end."
                 % "\n".join(branches))
     if tr.literals:
-        raise Unsupported("float literals %r in the metric kernels" % tr.literals)
-    return HEADER + "\n".join(defs) + "\nEnd Gen.\n"
+        raise Unsupported("float literals %r in the RPE kernels" % tr.literals)
+    return defs
+
+
+APE_STUB = ["Definition ape_base_gen (a b : Pose T) : Pose T := pI.  (* translation failed *)",
+            "Definition ape_pair_gen (rel : PoseRelation) (ref est : Pose T) : option T := None.  (* translation failed *)"]
+RPE_STUB = ["Definition rpe_base_gen (a b c d : Pose T) : Pose T := pI.  (* translation failed *)",
+            "Definition rpe_reduce_gen (rel : PoseRelation) (E : Pose T) : option T := None.  (* translation failed *)"]
+
+
+def translate_metrics(repo):
+    """-> (text, failed): the APE and the RPE part are translated independently; a part that cannot be translated becomes a
+    stub of its own (failed: part name -> reason)"""
+    rel_path = "evo/core/metrics.py"
+    failed = {}
+    try:
+        tree = ast.parse(open(os.path.join(repo, rel_path)).read())
+        classes = {n.name: n for n in tree.body if isinstance(n, ast.ClassDef)}
+        for c in ("APE", "RPE", "PoseRelation"):
+            if c not in classes:
+                raise Unsupported("class %s not found" % c)
+        members = [t.id for n in classes["PoseRelation"].body if isinstance(n, ast.Assign) for t in n.targets if isinstance(t, ast.Name)]
+        if sorted(members) != sorted(RELS):
+            raise Unsupported("PoseRelation members are %r" % members)
+    except (Unsupported, OSError, SyntaxError) as e:
+        return HEADER + "\n".join(APE_STUB + RPE_STUB) + "\nEnd Gen.\n", {"ape": str(e), "rpe": str(e)}
+    parts = []
+    for name, fn, stub_defs in (("ape", _translate_ape, APE_STUB), ("rpe", _translate_rpe, RPE_STUB)):
+        try:
+            parts += fn(classes)
+        except (Unsupported, KeyError, IndexError, AttributeError, TypeError) as e:
+            failed[name] = "%s: %s" % (type(e).__name__, e)
+            parts += stub_defs
+    return HEADER + "\n".join(parts) + "\nEnd Gen.\n", failed
 
 
 HEADER = """(* GENERATED by harness/pyast_metrics.py from evo/core/metrics.py - regenerated on every run, do not edit. *)
@@ -263,45 +291,52 @@ Variable rad2deg : T -> T.          (* np.rad2deg *)
 
 
 def stub():
-    return HEADER + """Definition ape_base_gen (a b : Pose T) : Pose T := pI.  (* translation failed *)
-Definition rpe_base_gen (a b c d : Pose T) : Pose T := pI.
-Definition ape_pair_gen (rel : PoseRelation) (ref est : Pose T) : option T := None.
-Definition rpe_reduce_gen (rel : PoseRelation) (E : Pose T) : option T := None.
-End Gen.
-"""
+    return HEADER + "\n".join(APE_STUB + RPE_STUB) + "\nEnd Gen.\n"
 
 
-def regenerate_ties(ctx, repo, coq_dir):
-    """LieGen.v + MetricsGen.v from the repository under test (shared by the C01, C02 and C09 checks); returns failure dicts"""
+METRIC_HELPERS = ["se3", "so3_from_se3", "se3_inverse", "relative_se3"]   # the lie_algebra functions MetricsGen builds on
+
+
+def regenerate_ties(ctx, repo, coq_dir, only=None, metrics=True):
+    """LieGen.v (+ MetricsGen.v) from the repository under test, shared by the C01, C02 and C09 checks; returns failure
+    dicts.  `only`: the lie_algebra functions whose translation concerns the caller (None = all of them)."""
     from harness import pyast_np
     fails = []
     lie_path = os.path.join(coq_dir, "generated", "LieGen.v")
     met_path = os.path.join(coq_dir, "generated", "MetricsGen.v")
     try:
-        text, lits = pyast_np.translate_lie(repo)
-        if lits != {"lit_1em06": 1e-06}:
-            raise Unsupported("float literals %r (the tie theorems instantiate atol = 1e-06 only)" % lits)
-        if pyast_np.write_if_changed(lie_path, text):
-            ctx.notes.append("coq/generated/LieGen.v regenerated from %s (content changed)" % repo)
+        text, lits, failed = pyast_np.translate_lie(repo)
     except (Unsupported, OSError, SyntaxError, KeyError, IndexError, AttributeError, TypeError) as e:
-        pyast_np.write_if_changed(lie_path, pyast_np.lie_stub())
+        text, lits = pyast_np.lie_stub(), {"lit_1em06": 1e-06}
+        failed = {n: "%s: %s" % (type(e).__name__, e) for n in pyast_np.LIE_ORDER}
+    if lits != {"lit_1em06": 1e-06}:
+        text = pyast_np.lie_stub()
+        failed = {n: "float literals %r (the tie theorems instantiate atol = 1e-06 only)" % lits for n in pyast_np.LIE_ORDER}
+    if pyast_np.write_if_changed(lie_path, text):
+        ctx.notes.append("coq/generated/LieGen.v regenerated from %s (content changed)" % repo)
+    relevant = sorted(k for k in failed if only is None or k in only)
+    if relevant:
         fails.append({"kind": "obligation", "failing_input": False, "theorem": "Evo.LieTie.lie_gen_is_model (translator tie)",
                       "correspondence": "pyast_np: evo/core/lie_algebra.py",
-                      "detail": "translation of the repository under test failed (fail-closed): %s: %s" % (type(e).__name__, e),
+                      "detail": "translation of the repository under test failed (fail-closed): " +
+                                "; ".join("%s: %s" % (k, failed[k]) for k in relevant),
                       "case": None, "model_output": None, "impl_output": None})
-    try:
-        text = translate_metrics(repo)
-        if pyast_np.write_if_changed(met_path, text):
-            ctx.notes.append("coq/generated/MetricsGen.v regenerated from %s (content changed)" % repo)
-    except (Unsupported, OSError, SyntaxError, KeyError, IndexError, AttributeError, TypeError) as e:
-        pyast_np.write_if_changed(met_path, stub())
-        fails.append({"kind": "obligation", "failing_input": False, "theorem": "Evo.MetricsTie (translator tie)",
-                      "correspondence": "pyast_metrics: evo/core/metrics.py",
-                      "detail": "translation of the repository under test failed (fail-closed): %s: %s" % (type(e).__name__, e),
-                      "case": None, "model_output": None, "impl_output": None})
+    if not metrics:
+        return fails
+    text, mfailed = translate_metrics(repo)
+    if pyast_np.write_if_changed(met_path, text):
+        ctx.notes.append("coq/generated/MetricsGen.v regenerated from %s (content changed)" % repo)
+    for part in sorted(mfailed):
+        if metrics is True or part == metrics:
+            fails.append({"kind": "obligation", "failing_input": False, "theorem": "Evo.MetricsTie%s (translator tie)" % part.capitalize(),
+                          "correspondence": "pyast_metrics: evo/core/metrics.py (%s part)" % part.upper(),
+                          "detail": "translation of the repository under test failed (fail-closed): " + mfailed[part],
+                          "case": None, "model_output": None, "impl_output": None})
     return fails
 
 
 if __name__ == "__main__":
     import sys
-    print(translate_metrics(sys.argv[1] if len(sys.argv) > 1 else "/repo"))
+    t_, f_ = translate_metrics(sys.argv[1] if len(sys.argv) > 1 else "/repo")
+    print(t_)
+    print("(* failed: %r *)" % f_)
